@@ -382,6 +382,7 @@ def impl_day(case, record=None):
     reports, wp_planners = wp.get_reports()
     r = DayResult()
     r.method = m
+    r.workplan = wp
     r.stats = stats
     r.reports = {sid: report_tuple(rep) for sid, rep in reports.items()}
     r.report_objs = reports
@@ -452,3 +453,111 @@ def crew_ghost(trace, cid):
         if _completed_now(t) or (t["visited"] and t["after"][0] > t["before"][0]):
             home = _num(t["travel"])
     return spent, home
+
+
+# ------------------------------------------------------------------------------------------------
+# budget of the day (workday / daylight)
+# ------------------------------------------------------------------------------------------------
+def impl_budget(consider_daylight, workday, daylight_hours, cls="method", daylight_obj=None, day=DATE0):
+    """minutes every crew starts the day with: the real deploy_crews on an empty work plan (so the
+    real get_daylight_hours and the x60 conversion run), read from the crew reports"""
+    m = make_method(cls, consider_daylight=consider_daylight, workday=8, crews=2)
+    m._max_work_hours = workday   # (a zero workday overflows the crew estimate of the constructor)
+    wp = Workplan([], day)
+    m.deploy_crews(wp, None, daylight_obj or StubDaylight(daylight_hours))
+    vals = {c.day_time_remaining for c in m._crew_reports}
+    assert len(vals) == 1
+    return vals.pop()
+
+
+def real_daylight(hours_fn, start, end):
+    """the real DaylightCalculatorAve over the stub ephem (sunrise at midnight, sunset after
+    hours_fn(date) hours)"""
+    from weather.daylight_calculator import DaylightCalculatorAve
+
+    shim.set_daylight(hours_fn)
+    try:
+        return DaylightCalculatorAve((50.0, -110.0), start, end)
+    finally:
+        shim.set_daylight(None)
+
+
+# ------------------------------------------------------------------------------------------------
+# weather: real WeatherLookup over the synthetic cube, real nearest-cell assignment, real check
+# ------------------------------------------------------------------------------------------------
+class LocSite(StubSite):
+    def __init__(self, sid, survey_time, lat, lon, **kw):
+        super().__init__(sid, survey_time, **kw)
+        self._loc = (lat, lon)
+
+    def get_loc(self):
+        return self._loc
+
+    def set_weather_lat(self, v):
+        self._lat = v
+
+    def set_weather_long(self, v):
+        self._lon = v
+
+
+def real_weather(fn, lats, lons):
+    """WeatherLookup reading the cube of harness/shim.py; fn(day_of_year0, lat_idx, lon_idx) ->
+    (temp C, wind m/s, precip mm) in the cube's own (file) index order"""
+    from pathlib import Path
+    from weather.weather_lookup import WeatherLookup
+
+    shim.set_weather(fn, lats=lats, lons=lons)
+    try:
+        return WeatherLookup({"weather_file": "synthetic.nc"}, Path("."))
+    finally:
+        shim.set_weather(None, lats=[20.0, 40.0, 60.0], lons=[-120.0, -100.0, -80.0])
+
+
+def place_sites(sites, weather):
+    """the real Infrastructure.set_weather_index on the given sites"""
+    import types
+    from virtual_world.infrastructure import Infrastructure
+
+    Infrastructure.set_weather_index(types.SimpleNamespace(_sites=sites), weather)
+
+
+def impl_weather_day(cls, sites, weather, day, env=None, budget_hours=24):
+    """one real deploy_crews day with every site planned and a fresh report; returns
+    {site id: (visited, report tuple)}"""
+    m = make_method(cls, sites=sites, consider_weather=True, workday=budget_hours, crews=1, env=env)
+    TravelScript(m, [0] * (len(sites) + 1))
+    seen = {}
+    orig = m.survey_site
+
+    def wrapped(crew, survey_report, site_to_survey, weather, curr_date):
+        res = orig(crew=crew, survey_report=survey_report, site_to_survey=site_to_survey,
+                   weather=weather, curr_date=curr_date)
+        seen[site_to_survey.get_id()] = bool(res[3])
+        return res
+
+    m.survey_site = wrapped
+    planners = [SurveyPlanner(s) for s in sites]
+    wp = Workplan(planners, day)
+    m.deploy_crews(wp, weather, StubDaylight(24))
+    reports, _ = wp.get_reports()
+    return {sid: (seen.get(sid, False), report_tuple(reports[sid])) for sid in reports}, wp
+
+
+def requeue_classes(wp, day=DATE0):
+    """the real GenericSchedule.update on the day's work plan: {site id: priority class} of what it
+    puts back into the queue, and the list of completed site ids"""
+    from scheduling.generic_schedule import GenericSchedule
+    from utils.queue import PriorityQueueWithFIFO
+
+    sched = GenericSchedule.__new__(GenericSchedule)
+    sched._method = "M"
+    sched._survey_queue = PriorityQueueWithFIFO()
+    reports, planners = wp.get_reports()
+    before = {sid: pl._surveys_this_year.get(day.year, 0) for sid, pl in planners.items()}
+    sched.update(wp, day, False)
+    queued = {}
+    while not sched._survey_queue.empty():
+        prio, _, pl = sched._survey_queue.get()
+        queued.setdefault(pl.get_site().get_id(), []).append(prio)
+    done = [sid for sid, pl in planners.items() if pl._surveys_this_year.get(day.year, 0) > before[sid]]
+    return queued, done
